@@ -368,15 +368,15 @@ func runSourceText(src string, limit int) (l entryLog, nontrivial bool) {
 		_ = vm.Set("log", func(call otto.FunctionCall) otto.Value { return otto.UndefinedValue() })
 	}
 	fresh()
-	// a large text goes through the parser and a rotating subset of the runtime entry points only:
+	// a large text goes through the parser and a rotating eighth of the runtime entry points only:
 	// otto's parser is super-linear in the number of syntax errors, and seventeen passes over 100 KB
 	// of nested garbage would come near the watchdog on a loaded machine without any wedge.
 	heavy := len(src) > 8000
-	pick := int(harness.Hash64(src) % 4)
+	pick := int(harness.Hash64(src) % 8)
 	nstep := 0
 	step := func(name string, fn func()) {
 		nstep++
-		if heavy && nstep%4 != pick {
+		if heavy && nstep%8 != pick {
 			return
 		}
 		harness.Arm(vm, 30000)
@@ -474,9 +474,13 @@ func checkSource(c sourceCase) harness.Outcome {
 	if id := excludedSource(c); id != "" {
 		return harness.Outcome{Excluded: []string{id}, Classes: []string{"steered-around-known-finding"}}
 	}
-	res, fatal := dispatch(job{Kind: "source", Source: &c})
-	out := harness.Outcome{Classes: res.Classes, Nontrivial: res.Nontrivial, Excluded: res.Excluded}
 	src := c.bytes()
+	limit := watchdog
+	if len(src) > 8000 {
+		limit = 4 * watchdog // expected: seconds, not milliseconds
+	}
+	res, fatal := dispatchWithin(job{Kind: "source", Source: &c}, limit)
+	out := harness.Outcome{Classes: res.Classes, Nontrivial: res.Nontrivial, Excluded: res.Excluded}
 	show := fmt.Sprintf("%q", truncate(string(src), 400))
 	if fatal != "" {
 		out.Nontrivial = true
@@ -520,7 +524,7 @@ func truncate(s string, n int) string {
 var sourceFacet = harness.Register(&harness.Facet[sourceCase]{
 	Name:     "source-bytes",
 	Rule:     "rapid: source text built from pieces — a token soup (every ES5 keyword and future reserved word, every punctuator, identifiers incl. unicode escapes, numeric/string/regexp literals in valid, partial and hostile forms, comments, line terminators, BOM, hostile one-line snippets), raw invalid UTF-8 / NUL bytes, pieces repeated up to 20000 times (very long identifiers and numbers), nesting openers repeated 3…5000 times with or without matching closers, inline base64 source maps, and valid programs from the semantic generator that are truncated, cut, spliced with another program, have ranges duplicated and tokens or raw bytes inserted. Each text goes, inside a worker subprocess on a runtime with stack depth limit ∈ {2,5,16,64,500} and a poll budget, through parser.ParseFile (two modes), parser.ParseFunction (as parameters and as body), the public scanner, (texts ≤ 300 bytes: ParseFile and ParseFunction on EVERY prefix, i.e. end of input after and inside every token), Otto.Compile, Run(*Script), Run(string), Run(*ast.Program), Run(io.Reader), Eval, Otto.Call (three forms), Otto.Object, Otto.Get/Set with the text as name, and as a string value through eval/Function/RegExp/JSON.parse/URI/Date.parse/etc. Oracle: every call returns; no Go panic crosses the API (the poll-budget sentinel excepted); the worker survives and answers. Non-trivial = the text is accepted or otto's scanner delivers ≥ 3 tokens before the first syntax error; distinct by the piece list",
-	Quick:    400,
+	Quick:    300,
 	Thorough: 2500,
 	Gen:      genSource,
 	Check:    checkSource,
